@@ -300,6 +300,39 @@ func genCmp(w *bufio.Writer, thorough bool, r *Rng) {
 		src := genSource(r, maxLen)
 		emitCmp(w, r, src, pickDl(r, len(src)))
 	}
+	// window edge: a chunk of early noise repeated at distance exactly 65535 / 65536 / 65537 (one
+	// below, at and beyond the largest offset), every alignment, with a long match in between so that
+	// the early positions are still in the tables
+	edge := 12
+	if thorough {
+		edge = 120
+	}
+	for i := 0; i < edge; i++ {
+		for _, dist := range []int{65535, 65536, 65537} {
+			shift := i % 12
+			src := r.Bytes(dist + 600 + r.Intn(3000))
+			for k := range src {
+				if src[k] == 0 {
+					src[k] = 1
+				}
+			}
+			from := 16 + shift + r.Intn(40)
+			fillB := byte(0)
+			if i%3 == 1 {
+				fillB = byte(r.Intn(256))
+			}
+			for k := 128 + r.Intn(64); k < from+dist; k++ {
+				if i%3 == 2 {
+					src[k] = byte(k % 5) // periodic filler
+				} else {
+					src[k] = fillB
+				}
+			}
+			copy(src[from+dist:], src[from:from+20+r.Intn(80)])
+			fmt.Fprintf(w, "CF %s %d %s\n", []string{"obj", "pkg"}[i%2], boundOf(len(src)), hx(src))
+			fmt.Fprintf(w, "CH obj %d %d %s\n", r.Pick([]int{1, 4, 512}), boundOf(len(src)), hx(src))
+		}
+	}
 	// around the 64 KiB window and 16-bit table positions
 	for i := 0; i < big; i++ {
 		n := r.Pick([]int{65533, 65536, 65539, 70000, 131069, 131072, 131075, 200000})
